@@ -177,4 +177,8 @@ def den(v: dict, n: int) -> set[int]:
 
 
 def norm_shape(v: dict) -> tuple:
+    """Shape up to the two spellings of the universal set (AnySpecifier / RangeSpecifier()), which the
+    property treats as one canonical value (they compare equal)."""
+    if v["k"] == "range" and not v["rs"][0]["lo"] and not v["rs"][0]["hi"]:
+        return ("any", ())
     return (v["k"], tuple((r["lo"], r["hi"], bool(r["li"]), bool(r["ui"])) for r in v["rs"]))
